@@ -51,6 +51,7 @@ Section Orc.
     else if is_cmd cmd "pat_matches" then
       (* normalised-pattern exact normalised-command *)
       Some (if fn_error (s 0%nat) then A $"error" else sx_of_bool (pat_matches (s 0%nat) (sx_bool (a 1%nat)) (s 2%nat)))
+    else if is_cmd cmd "expand_home_only" then Some (A (expand_home_only (o_home tt) (s 0%nat)))
     else if is_cmd cmd "split_py" then Some (L (map A (split_py (s 0%nat))))
     else if is_cmd cmd "nf" then
       (* home cwd spelling: the specification side of C09 (no oracle) *)
